@@ -3,8 +3,11 @@ package h
 import (
 	"encoding/json"
 	"fmt"
+	"runtime"
 	"strings"
 	"sync"
+	"testing/synctest"
+	"time"
 
 	"github.com/netflix/rend/protocol/binprot"
 	"github.com/netflix/rend/verifshim/vsync"
@@ -232,6 +235,7 @@ func runC14(c *rt.Ctx) {
 		bound, maxExecs = 2, 60000
 	}
 	item := 0
+	stalledReader(c, &item)
 	for _, cfg := range cfgs {
 		progs := isoPrograms(cfg.Proto == "binary")
 		// two- and three-connection programs; each connection runs a window of its command list
@@ -302,6 +306,121 @@ func runC14(c *rt.Ctx) {
 		}
 	}
 	c.Set("preemption_bound", bound)
+}
+
+// busyLockHooks turns "a goroutine asks for a lock that is held while nothing else can run" (a real
+// mutex would simply hang the bubble) into a note and the end of that goroutine.
+type busyLockHooks struct{ note *string }
+
+func (b busyLockHooks) Acquire(m interface{}, write bool) {
+	free := true
+	switch l := m.(type) {
+	case *vsync.RWMutex:
+		if write {
+			if free = l.TryLock(); free {
+				l.Unlock()
+			}
+		} else if free = l.TryRLock(); free {
+			l.RUnlock()
+		}
+	case *vsync.Mutex:
+		if free = l.TryLock(); free {
+			l.Unlock()
+		}
+	}
+	if !free {
+		if *b.note == "" {
+			*b.note = fmt.Sprintf("a lock (%T) is held while a client is not reading its reply, and another connection needs it", m)
+		}
+		runtime.Goexit()
+	}
+}
+func (b busyLockHooks) Acquired(m interface{}, write bool)        {}
+func (b busyLockHooks) Release(m interface{}, write bool)         {}
+func (b busyLockHooks) PoolGet(p *vsync.Pool) (interface{}, bool) { return nil, false }
+func (b busyLockHooks) PoolPut(p *vsync.Pool, x interface{}) bool { return false }
+
+// stalledReader: one client asks for many values and stops reading its reply; whatever the server
+// holds on to while it waits for that client (a lock of a shared backend, a shared buffer), other
+// connections must be served as if it were not there. Deployments whose connections have backends of
+// their own, and the shared in-process backend.
+func stalledReader(c *rt.Ctx, item *int) {
+	cfgs := []Cfg{{Orca: "l1only", Lock: "none", Proto: "text", L1H: "std"}, {Orca: "l1l2", Lock: "none", Proto: "binary", L1H: "std"},
+		{Orca: "l1only", Lock: "none", Proto: "binary", L1H: "chunked"}, {Orca: "l1only", Lock: "none", Proto: "text", L1H: "inmem", App: true},
+		{Orca: "l1only", Lock: "none", Proto: "binary", L1H: "inmem", App: true}, {Orca: "l1only", Lock: "none", Proto: "binary", L1H: "batched"}}
+	for _, cfg := range cfgs {
+		for _, nkeys := range []int{8, 40, 100} {
+			*item++
+			if !c.Mine(*item) || c.Expired() {
+				continue
+			}
+			var problem string
+			sched.Bubble(c.T, func() {
+				w := NewWorld(cfg)
+				defer w.Release()
+				a, b := w.Connect(0), w.Connect(0)
+				var keys []string
+				var quiet []bool
+				for i := 0; i < nkeys; i++ {
+					k := fmt.Sprintf("s%03d", i)
+					keys = append(keys, k)
+					quiet = append(quiet, cfg.Proto == "binary" && i < nkeys-1)
+					a.Do(wire.Op{Kind: "set", Key: k, Val: strings.Repeat("v", 120), Flags: uint32(i), Opaque: uint32(16 * i)})
+				}
+				big := wire.Op{Kind: "mget", Keys: keys, Quiet: quiet, Opaque: 0x4000}
+				a.Cli.StopReading(300)
+				a.FeedOp(big)
+				synctest.Wait()
+				for i := 0; i < 50 && !a.Cli.IsStalled(); i++ {
+					time.Sleep(time.Millisecond) // the batching pool sends after its (virtual) batch delay
+					synctest.Wait()
+				}
+				if !a.Cli.IsStalled() {
+					problem = "harness: the big reply did not reach the point where the client stops reading"
+					a.Cli.Unstall()
+					return
+				}
+				var held string
+				vsync.H = busyLockHooks{&held}
+				defer func() { vsync.H = nil }()
+				// the others go on: a write, a read of a stored key, a read of a missing key
+				follow := []wire.Op{{Kind: "set", Key: "other", Val: "o", Flags: 3, Opaque: 0x10}, {Kind: "get", Key: keys[0], Opaque: 0x20}, {Kind: "get", Key: "nokey", Opaque: 0x30}}
+				for _, op := range follow {
+					from := len(b.Cli.Out)
+					b.FeedOp(op)
+					synctest.Wait()
+					for i := 0; i < 50 && len(b.Cli.Out) == from; i++ {
+						time.Sleep(time.Millisecond)
+						synctest.Wait()
+					}
+					if len(b.Cli.Out) == from {
+						problem = fmt.Sprintf("while one client does not read its %d-key reply, another connection's %s gets no answer %s", nkeys, op.Kind, held)
+						break
+					}
+				}
+				a.Cli.Unstall()
+				synctest.Wait()
+				if problem == "" {
+					ra, _, _ := a.Replies()
+					if last := ra[len(ra)-1]; last.Class != "values" || len(last.Hits) != nkeys || last.Malformed != "" {
+						problem = fmt.Sprintf("after the client read on, its reply is %s", last.Canon())
+					}
+					rb, _, _ := b.Replies()
+					if rb[0].Class != "ok" || len(rb[1].Hits) != 1 || rb[2].Class != "values" {
+						problem = fmt.Sprintf("the other connection was answered %s | %s | %s", rb[0].Canon(), rb[1].Canon(), rb[2].Canon())
+					}
+				}
+				a.Hangup()
+				b.Hangup()
+			})
+			c.Eval(1)
+			c.Distinct(fmt.Sprintf("stalled|%s|%d", cfg, nkeys))
+			c.Nontrivial(fmt.Sprintf("stalled|%s|%d", cfg, nkeys))
+			if problem != "" {
+				c.Violation(fmt.Sprintf("C14 stalled-reader-blocks-others cfg=%s", cfgClass(cfg)), problem, map[string]interface{}{"cfg": cfg, "keys": nkeys})
+			}
+		}
+	}
 }
 
 // runC14Race: the same connection programs free-running (real pools, 16 OS threads) under the
